@@ -266,10 +266,28 @@ def tag_closures(F, f, b, region):
     return out
 
 
+def tag_shifts_inline(f, b, region):
+    """`for (tag, _) in buffered_vector.iter_mut() { if .. { *tag +-= 1 } }` written in the arm itself."""
+    out = []
+    for loc, s in b.iter_stmts(sorted(region)):
+        if s["k"] != "assign" or not s["place"]["proj"]:
+            continue
+        lf = last_field(s["place"])
+        is_tag_place = (lf == "0") or (s["place"]["proj"] == ["deref"] and "&mut usize" in b.locals[s["place"]["l"]]["ty"])
+        if not is_tag_place:
+            continue
+        e = b.expr_of_rv(s["rv"], 8, ())
+        adds = find_all(e, lambda y: y[0] == "bin" and re.match(r"(Add|Sub)", y[1]))
+        if adds and is_const_int(adds[0][3], 1) and contains(b.expr_of_local(s["place"]["l"]), lambda y: y[0] == "call" and ecall_matches(y, r"::iter_mut$|IterMut|Iterator>?::next$")):
+            facts = [x for (ss, tt, x) in conds.dominating_facts(b, loc[0]) if ss in region]
+            out.append((f, "+" if adds[0][1].startswith("Add") else "-", facts, loc))
+    return out
+
+
 def tags(ctx, f, b, sw, target, v, buf):
     F = ctx.facts
     region = arm_region(b, sw, target)
-    tcs = tag_closures(F, f, b, region)
+    tcs = tag_closures(F, f, b, region) + tag_shifts_inline(f, b, region)
     where = b.line_at((target, 0))
     want = {"PushFront": ("+", None), "Insert": ("+", "Ge"), "PopFront": ("-", "any"), "Remove": ("-", "Gt")}
     if v not in want:
@@ -289,8 +307,9 @@ def tags(ctx, f, b, sw, target, v, buf):
     if guard is None and cmps:
         probs.append("shifts only some tags (a PushFront moves every item)")
     if guard in ("Ge", "Gt"):
-        is_tag = lambda e: contains(e, lambda y: y[0] == "param" and y[1] == 2) or (e[0] == "field" and e[2] == "0")
-        is_new = lambda e: contains(e, lambda y: y[0] == "field" and y[1][0] in ("param", "deref") and y[2] not in ("0", "1"))
+        is_tag = lambda e: contains(e, lambda y: y[0] == "param" and y[1] == 2) or (e[0] == "field" and e[2] == "0") or contains(e, lambda y: y[0] == "call" and ecall_matches(y, r"Iterator>?::next$"))
+        is_new = lambda e: (contains(e, lambda y: y[0] == "field" and y[1][0] in ("param", "deref") and y[2] not in ("0", "1")) or contains(e, lambda y: y[0] == "field" and y[2] == "index" and y[1][0] == "downcast")) \
+            and not contains(e, lambda y: y[0] == "call" and ecall_matches(y, r"Iterator>?::next$"))
         ok = conds.cmp_holds(facts, guard, is_tag, is_new)
         other = "Gt" if guard == "Ge" else "Ge"
         if not ok:
